@@ -6,8 +6,9 @@ description of the model – spaces, direct bases, linearisations, cells with fo
 flags, references, inputs and held values – is taken before every operation; whenever the
 operation raises, the description afterwards must be identical.  After every accepted
 operation: the base relation is acyclic, every space has a C3 linearisation (checked with
-Python's own C3 and the Lean kernel), every space and cells name is a valid identifier not
-starting with an underscore.
+Python's own C3 and the Lean kernel), every space, cells and reference name is a valid identifier
+not starting with an underscore.  A refused operation also leaves every space, cells and reference
+the same OBJECT (handles taken before stay valid).
 Lean (Props/C11.lean): the validation kernel – name validity, acyclicity and existence of the
 linearisation are decided by total functions, and accepted base edits keep them.
 """
@@ -17,6 +18,7 @@ import keyword
 from .. import core
 from .. import structworld as W
 from .. import struct_props as S
+from .. import struct_api_gen as api
 from ..impl import mx, close_all, quiet
 
 CFG = {
@@ -44,6 +46,7 @@ class H(S.Hooks):
             self.desc = None
             return
         self.desc = W.describe(live.m) if op[0] not in ("eval", "evalall") else None
+        self.ident = api.identities(live.m) if self.desc is not None else None
 
     def after(self, live, ops, k, op, result, out, stats):
         if op[0] in ("eval", "evalall") or getattr(self, "broken", False):
@@ -69,6 +72,10 @@ class H(S.Hooks):
                 key = "C11-dangling-reference" if result == "err Deleted" else None
                 out.fail("%s raised (%s) but changed the model: %s" % (op[0], result, _diff(self.desc, after)), hist,
                          key=key)
+            elif self.ident is not None and api.identities(live.m) != self.ident:
+                # the same description, but not the same objects: handles taken before the refused edit are dead
+                out.fail("%s raised (%s) but replaced objects of the model: %s" % (
+                    op[0], result, api.identity_diff(self.ident, api.identities(live.m))), hist)
             return
         defs = W.definitions(live.m)
         py = W.python_c3(defs)
@@ -82,6 +89,8 @@ class H(S.Hooks):
             for cn in s.cells:
                 if not valid_name(cn):
                     out.fail("cells name %r in %s is not a valid identifier" % (cn, p), hist)
+        for rn in api.bad_ref_names(live.m):
+            out.fail("reference name %r is not a valid identifier" % rn, hist)
 
 
 def _diff(a, b):
@@ -113,6 +122,8 @@ def run(ctx, out):
                              "made to a base has to be refused because of what one of SEVERAL sub spaces uses the name "
                              "for (model-level reference of the name created before / after / not at all), followed by "
                              "re-deriving edits; %d contain a refused edit" % (len(fam), refused))
+    api.run_struct(ctx, out, stats, H, CFG, S.run_one)
+    out.coverage["input_distribution"] = dict(stats)
 
 
 def replay(ctx, payload, out):
